@@ -478,3 +478,115 @@ pub fn std_assumptions(rep: &mut Report) {
     rep.assumptions
         .push("through the level, an iceberg tranche is min(exhausted display, hidden) (the documented size; the direct C05 grid accepts any size in 1..=that)".into());
 }
+
+// ---------------------------------------------------------------------------------------------
+// C02, last sentence: a match result built incrementally keeps remaining = initial - sum
+// ---------------------------------------------------------------------------------------------
+
+pub fn match_result_incremental(rep: &mut Report, n: u64) {
+    use pricelevel::{MatchResult, Side, Transaction};
+    let seed = rep.seed;
+    let tier = rep.tier;
+    let nw = ncpu();
+    parallel(nw, rep, |w| {
+        let mut part = Report::new("C02", tier, seed, "exploration");
+        let mut i = w as u64;
+        let mut appended = 0u64;
+        while i < n {
+            let mut rng = Rng::derive(seed ^ 0x02add, i);
+            let initial: u64 = match rng.below(5) {
+                0 => 0,
+                1 => rng.below(50),
+                2 => rng.below(100_000),
+                3 => u64::MAX - rng.below(3),
+                _ => rng.next_u64() >> rng.below(60),
+            };
+            let id = model::oid(1 + rng.below(1000));
+            let mut m = MatchResult::new(id, initial);
+            let mut want_rem = initial;
+            let mut sum: u128 = 0;
+            let mut log = vec![format!("new(initial={})", initial)];
+            let mut bad: Option<String> = None;
+            if m.remaining_quantity != initial || m.is_complete || !m.transactions.is_empty() || m.order_id != id {
+                bad = Some(format!("fresh result: remaining={} complete={} txs={}", m.remaining_quantity, m.is_complete, m.transactions.len()));
+            }
+            let k = rng.below(8);
+            for j in 0..k {
+                let q: u64 = match rng.below(6) {
+                    0 => 0,
+                    1 => want_rem, // exactly what is left
+                    2 => want_rem / 2,
+                    3 => want_rem.saturating_add(rng.below(3)), // over-fill: remaining saturates at 0
+                    4 => rng.below(20),
+                    _ => rng.next_u64() >> rng.below(64),
+                };
+                let t = Transaction {
+                    transaction_id: uuid::Uuid::from_u128(i as u128 * 16 + j as u128),
+                    taker_order_id: id,
+                    maker_order_id: model::oid(2000 + j),
+                    price: 1 + rng.below(1000),
+                    quantity: q,
+                    taker_side: if rng.chance(1, 2) { Side::Buy } else { Side::Sell },
+                    timestamp: j,
+                };
+                let r = crate::hook::quiet_catch(|| {
+                    let mut m2 = m.clone();
+                    m2.add_transaction(t);
+                    m2
+                });
+                appended += 1;
+                log.push(format!("add_transaction(quantity={})", q));
+                match r {
+                    Err(p) => {
+                        bad = Some(format!("add_transaction panicked: {}", crate::sched::panic_message(&*p)));
+                        break;
+                    }
+                    Ok(m2) => m = m2,
+                }
+                sum += q as u128;
+                want_rem = want_rem.saturating_sub(q);
+                if m.remaining_quantity != want_rem {
+                    bad = Some(format!("remaining {} != initial {} - sum {} (expected {})", m.remaining_quantity, initial, sum, want_rem));
+                    break;
+                }
+                if m.is_complete != (want_rem == 0) {
+                    bad = Some(format!("is_complete={} with remaining {}", m.is_complete, m.remaining_quantity));
+                    break;
+                }
+                if m.transactions.len() != (j + 1) as usize || m.transactions.as_vec().last() != Some(&t) {
+                    bad = Some("the appended transaction is not the last of the list".into());
+                    break;
+                }
+                if sum <= u64::MAX as u128 {
+                    match crate::hook::quiet_catch(|| m.executed_quantity()) {
+                        Ok(e) if e as u128 == sum => {}
+                        Ok(e) => {
+                            bad = Some(format!("executed_quantity {} != sum of transactions {}", e, sum));
+                            break;
+                        }
+                        Err(_) => {
+                            bad = Some("executed_quantity panicked although the sum fits in 64 bits".into());
+                            break;
+                        }
+                    }
+                }
+            }
+            part.evaluations += 1;
+            if k >= 2 {
+                part.distinct.insert(crate::rng::fnv(log.join(";").as_bytes()));
+            }
+            if i < 2 {
+                part.sample(json!({"incremental_match_result": log}));
+            }
+            if let Some(b) = bad {
+                part.violation(
+                    format!("[incremental match result {}] {}", i, b),
+                    json!({"engine": "match-result-incremental", "property": "C02", "case": i, "seed": seed, "calls": log, "finding": b}),
+                );
+            }
+            i += nw as u64;
+        }
+        part.add("match_result_transactions_appended", appended);
+        part
+    });
+}
